@@ -69,20 +69,39 @@ DWORD GetProcessId(HANDLE h) { return pid_of(h); }
 // a process that is still on its way out (its exit pipe is closed, the process object not yet signalled): a finite
 // wait times out and the exit code reads STILL_ACTIVE until somebody waits for as long as it takes
 static int proc_still_running;
+static int life_fail_at;   // 1 WaitForSingleObject, 2 GetExitCodeProcess, 3 GenerateConsoleCtrlEvent, 4 TerminateProcess
+static DWORD life_fail_err;
 DWORD WaitForSingleObject(HANDLE h, DWORD ms)
 {
   rec_wait_handle = h;
   rec_wait_ms = ms;
   n_wait++;
+  if (life_fail_at == 1) { SetLastError(life_fail_err); return WAIT_FAILED; }
   if (proc_still_running) {
     if (ms != INFINITE) return WAIT_TIMEOUT;
     proc_still_running = 0;
   }
   return 0;
 }
-BOOL GetExitCodeProcess(HANDLE h, DWORD *code) { rec_code_handle = h; *code = proc_still_running ? STILL_ACTIVE : scripted_exit_code; return 1; }
-BOOL GenerateConsoleCtrlEvent(DWORD ev, DWORD group) { rec_ctrl_event = ev; rec_ctrl_group = group; n_ctrl++; return 1; }
-BOOL TerminateProcess(HANDLE h, UINT code) { rec_term_handle = h; rec_term_code = code; n_term++; return 1; }
+BOOL GetExitCodeProcess(HANDLE h, DWORD *code)
+{
+  rec_code_handle = h;
+  if (life_fail_at == 2) { SetLastError(life_fail_err); return 0; }
+  *code = proc_still_running ? STILL_ACTIVE : scripted_exit_code;
+  return 1;
+}
+BOOL GenerateConsoleCtrlEvent(DWORD ev, DWORD group)
+{
+  rec_ctrl_event = ev; rec_ctrl_group = group; n_ctrl++;
+  if (life_fail_at == 3) { SetLastError(life_fail_err); return 0; }
+  return 1;
+}
+BOOL TerminateProcess(HANDLE h, UINT code)
+{
+  rec_term_handle = h; rec_term_code = code; n_term++;
+  if (life_fail_at == 4) { SetLastError(life_fail_err); return 0; }
+  return 1;
+}
 BOOL CloseHandle(HANDLE h)
 {
   if (n_closed < 16) rec_closed[n_closed++] = h;
@@ -764,6 +783,21 @@ static void check_life(void)
     hviol("win-kill-target", msg, hh);
   }
   if (process_pid(h) != (int) pid_of(h)) hviol("win-pid", "process_pid is not the id of the handle", hh);
+  // each Win32 call failing: the error must come back as the negative system error, not as a status / success
+  static const DWORD LERR[] = { 5 /* ACCESS_DENIED */, 6 /* INVALID_HANDLE */, 87 /* INVALID_PARAMETER */, 1450 };
+  for (int fa = 1; fa <= 4; fa++) {
+    life_fail_at = fa;
+    life_fail_err = LERR[rnd() % 4];
+    scripted_exit_code = (DWORD) (rnd() % 256);
+    r = fa <= 2 ? process_wait(h) : fa == 3 ? process_terminate(h) : process_kill(h);
+    life_fail_at = 0;
+    if (r != -(int) life_fail_err) {
+      snprintf(msg, sizeof msg, "%s failing with %u: %s returned %d, expected %d",
+               fa == 1 ? "WaitForSingleObject" : fa == 2 ? "GetExitCodeProcess" : fa == 3 ? "GenerateConsoleCtrlEvent" : "TerminateProcess", life_fail_err,
+               fa <= 2 ? "process_wait" : fa == 3 ? "process_terminate" : "process_kill", r, -(int) life_fail_err);
+      hviol("win-life-failure-not-reported", msg, hh);
+    }
+  }
   n_closed = 0;
   HANDLE d = process_destroy(h);
   int mine = 0;
